@@ -526,7 +526,7 @@ theorem WF.localP {t : ObjectTree} (w : WF t) {i : Nat} (h : live t i = true) :
     (La t i ≠ INV → P t (La t i) = i ∧ Nx t (La t i) = INV) ∧
     (Fi t i = INV ↔ La t i = INV) := by
   have := w.loc i h
-  simp only [localOK, Bool.and_eq_true, Bool.or_eq_true, decide_eq_true_eq, bne_iff_ne, ne_eq,
+  simp only [localOK, Bool.and_eq_true, Bool.or_eq_true, decide_eq_true_eq, ne_eq,
     decide_not, Bool.not_eq_true', decide_eq_false_iff_not, beq_iff_eq, decide_eq_decide] at this
   obtain ⟨⟨⟨⟨⟨⟨⟨⟨_, c1⟩, c2⟩, c3⟩, c4⟩, c5⟩, c6⟩, c7⟩, c8⟩ := this
   refine ⟨?_, ?_, ?_, ?_, ?_, ?_, ?_, c8⟩
